@@ -160,12 +160,13 @@ theorem M5_compaction (cfg : Cfg) (w : W) (hi : Inv cfg w) :
 /-- **Gen obligation (lock scopes).** What the translator extracts from `kvstore.hpp` about the guards on `_mutex` and
 `_cacheMutex`: `get()` looks the key up and refills the cache inside ONE guard on `_mutex`; its fast path holds `_cacheMutex`
 only; every writer changes `_cache`, `_kv` and `_expiry` while it holds `_mutex` exclusively; every access to `_cache` holds
-`_cacheMutex` (writes: exclusively).  These are the hypotheses under which a public method is one atomic step of the
+`_cacheMutex` (writes: exclusively); every read of `_kv` / `_expiry` outside the constructor-only functions (`exists`, `ttl`,
+`size`, `getBatch`, `keys`, ...) holds `_mutex` (`readersHoldStoreLock`).  These are the hypotheses under which a public method is one atomic step of the
 sequential model as far as the read cache is concerned (`M6_get_miss_race`). -/
 theorem gen_locks_ok :
     Gen.Kv.getRefillsCacheUnderStoreLock = true ∧ Gen.Kv.getFastPathTakesCacheLockOnly = true ∧
     Gen.Kv.writersTouchCacheUnderStoreLock = true ∧ Gen.Kv.storeWritesUnderStoreLock = true ∧
-    Gen.Kv.cacheAccessUnderCacheLock = true := by
+    Gen.Kv.cacheAccessUnderCacheLock = true ∧ Gen.Kv.readersHoldStoreLock = true := by
   decide
 
 /-- **M6 (cache coherence under every schedule).** For the lock scopes of the working tree (`Race.Shape.gen`): whatever
